@@ -18,7 +18,7 @@ import time
 import zlib
 from fractions import Fraction
 
-from common import coqrun, enc
+from common import coqrun, e2e, enc
 
 ID = "C15"
 PROP_FILE = "props/C15.v"
@@ -96,13 +96,42 @@ def run_impl(case, work):
     from aiu_trace_analyzer.ingest.ingestion import MultifileIngest
     os.makedirs(work, exist_ok=True)
     paths = []
+    # where the files of the set live is not part of the case: flat (f0.json, f1.json, ...), one directory per file with
+    # the SAME base name (rank0/trace.json, rank1/trace.json: the usual multi-rank layout), or two different files
+    # whose paths share a 4-digit job id (crc32(path) % 10000)
+    nev = sum(len(t) for f in case for t in f["tokens"])
+    layout = ("flat", "dirs", "collide", "flat")[nev % 4]
     for i, f in enumerate(case):
         p = os.path.join(work, f"f{i}.json")
-        with open(p, "w") as fh:
-            json.dump(file_json(f), fh)
+        if layout == "dirs":
+            os.makedirs(os.path.join(work, f"rank{i}"), exist_ok=True)
+            p = os.path.join(work, f"rank{i}", "trace.json")
+        elif layout == "collide" and i == 1:
+            j = 0
+            while crc_job(os.path.join(work, f"f1_{j}.json")) != crc_job(paths[0]):
+                j += 1
+            p = os.path.join(work, f"f1_{j}.json")
         paths.append(p)
     old = aiulog.loglevel
     aiulog.loglevel = -1            # TraceWarning.__del__ would print one line per file otherwise
+    if case and nev % 3 == 1:
+        # history of the process: the first path was ingested before, as a torch profile (another dialect, same job id)
+        with open(paths[0], "w") as fh:
+            json.dump({"deviceProperties": [{"id": 0}], "distributedInfo": {"rank": 3},
+                       "traceEvents": [{"ph": "X", "name": "aten::add", "pid": 9, "tid": 9, "ts": 1.0, "dur": 2.0}]}, fh)
+        try:
+            m0 = MultifileIngest(paths[0])
+            for _ in iter(m0):
+                pass
+            for g in list(m0.ingesters) + [m0]:
+                for w in g.warnings.values():
+                    w.auto_log = False
+            del m0
+        except Exception:  # noqa: BLE001
+            pass
+    for p, f in zip(paths, case):
+        with open(p, "w") as fh:
+            json.dump(file_json(f), fh)
     out, m = [], None
     try:
         try:
@@ -139,12 +168,13 @@ def coq_ev(e):
 
 def coq_case(case, paths):
     fs = []
-    for f, p in zip(case, paths):
+    ids = e2e.job_ids(paths)
+    for f, p, jid in zip(case, paths, ids):
         dictform = f.get("form", "list") == "dict"
         rank0 = f["rank"] if (dictform and f.get("rank") is not None) else -1
         processed = bool(dictform and f.get("processed"))
         evs = [coq_ev(e) for tok in f["tokens"] for e in tok]
-        fs.append(f"(mkFile {enc.Z(crc_job(p))} {enc.Z(rank0)} {enc.B(processed)} {enc.L(evs)})")
+        fs.append(f"(mkFile {enc.Z(jid)} {enc.Z(rank0)} {enc.B(processed)} {enc.L(evs)})")
     return enc.L(fs)
 
 
